@@ -304,7 +304,7 @@ theorem client_promised_exceptions (cfg : Cfg) (fuel : Nat) (h : Handle) (c : Ca
     a NEW trial with the given parameters (SUCCEEDED for a completed trial, otherwise REQUESTED = queued) and
     return its handle; a measurement given to `complete` is stored as the final measurement and returned;
     `stop` on an ACTIVE trial leaves it STOPPING; `set_state(s)` stores `s`; `Trial.delete` removes the
-    trial; `update_metadata` for a trial that does not exist raises RuntimeError (all-or-nothing datastore). -/
+    trial and `Study.delete` the study; `update_metadata` for a trial that does not exist raises RuntimeError (all-or-nothing datastore). -/
 theorem client_documented_effects (cfg : Cfg) (hc : cfg.metadataAtomic = true) (fuel : Nat) (h : Handle) (c : Call) (db : DB) :
     effectsOK db (clientStep cfg fuel h c db).2 h c (clientStep cfg fuel h c db).1 = true :=
   clientExec_effectsOK cfg hc fuel h c db
